@@ -6,8 +6,9 @@ M: RateLimit.tla (S2, TLC exhaustive): the token buckets as engine/src/rate_limi
    GlobalExact, NoStarveBelowRate; every action must fire.  Three stricter statements are run expecting the
    counterexample (they document what the code does not guarantee) and seeded mutations of the algorithm are
    run to show that the invariants have teeth.
-R: ratelab drives the REAL RateLimiter from 1..8 (directed rows: 64) threads over a seeded grid and records
-   every admitted call and a sample of the refused ones with the caller's before/after clock.
+R: ratelab drives the REAL RateLimiter from 1..8 (directed rows: 64) threads over a seeded grid (burst / steady /
+   on-off / mixed / drain-then-pace / hand-over patterns, three rows built the way kyrodb_server builds it) and
+   records every admitted call and a sample of the refused ones with the caller's before/after clock.
 O: RateEnvelope.tla (S1), evaluated by TLC over the recordings, is the only source of VIOLATION.
 
 Known mechanism (found by the model, reproduced on the real code by the directed "handoff" rows): with a
@@ -121,11 +122,22 @@ def grid(tier, rng):
         add(rates=rates, grate=g, threads=thr, assign=R(["pinned", "roam"]) if pat != "steady" else "pinned", pattern=pat,
             pace_pct=R([40, 90, 110, 300]), on_ms=R([10, 30, 60]), off_ms=R([20, 50, 110]),
             dur_ms=dur(max(g, 1) if g else sum(rates)))
-    # directed rows: the hold-across-refill schedule the model check found (see module docstring)
-    for i in range(2 if q else 6):
-        r = R([300, 400]); hogs = 32
-        add(rates=[r] + [100000] * 8, grate=3 * r, threads=64, hogs=hogs, pattern="handoff", off_ms=40, on_ms=240,
-            dur_ms=240 + 560, max_ref=2, ref_den=1 << 20, directed=True)
+    # 12 hand-over with ONE caller per tenant: the others saturate the global bucket, then stop; whatever tenant 1 was
+    #    refused meanwhile must not have cost it anything (lower clause, no hold allowance: conc = 1)
+    r = R([200, 500]); add(rates=[r, 20 * r, 20 * r], grate=2 * r, threads=4, hogs=3, pattern="handoff", off_ms=20, on_ms=R([100, 150]), dur_ms=dur(2 * r, 300))
+    # 13 a tenant far above its rate next to a tenant below its rate, global budget with room: the calm tenant is never refused
+    r = R([200, 500]); add(rates=[r, r], grate=R([0, 3 * r]), threads=2, pattern="mixed", pace_pct=R([40, 60]), dur_ms=dur(3 * r, 250))
+    # 14 drain the burst, then stay below the rate: the refill must really arrive
+    r = R([200, 500]); add(rates=[r], threads=1, pattern="drainpace", on_ms=R([20, 40]), pace_pct=R([50, 70]), dur_ms=dur(r, 300))
+    # directed rows (see module docstring).  holdgate: the schedule of TLC's counterexample (RateLimit, Strict = "window")
+    # forced on the real limiter by gating the holders' lock operations.  handoff: the same effect from the scheduler alone -
+    # 32 callers of tenant 1 keep being refused by a global bucket that 32 callers of 8 other tenants drain; then those stop.
+    for h, r, g in ([(2, 20, 1000), (1, 50, 2000)] if q else [(2, 20, 1000), (1, 50, 2000), (3, 10, 500), (2, 100, 20000)]):
+        add(rates=[r, 100000], grate=g, threads=h + 1, hogs=h, pattern="holdgate", dur_ms=int(1000 * (3 * h + 3) / r) + 200, directed=True)
+    for i in range(2 if q else 8):
+        r = [1000, 600, 400][i % 3]
+        add(rates=[r] + [100000] * 8, grate=3 * r, threads=64, hogs=32, pattern="handoff", off_ms=40, on_ms=200,
+            dur_ms=200 + 540, max_ref=2, ref_den=1 << 20, directed=True)
     return rows
 
 
@@ -177,6 +189,10 @@ def corrupt(rec, how, rng):
     elif how == "compress":         # the same calls in 80 % of the time (refill 25 % too fast)
         for e in adm + c["ref"]:
             e[2] = e[2] * 4 // 5; e[3] = e[3] * 4 // 5 + 1
+    elif how == "starve":           # paced calls of the second half refused instead of admitted (refill never arrives)
+        half = (min(e[2] for e in adm) + max(e[3] for e in adm)) // 2
+        c["ref"] = [e for e in adm if e[2] > half][:40]
+        c["adm"] = [e for e in adm if e[2] <= half]
     elif how == "refuse":           # a refusal at a moment when nothing had been used yet
         first = min(adm, key=lambda e: e[2])
         c["ref"] = [[first[0], first[1], max(first[2] - 1, 0), first[2]]] + c["ref"]
@@ -204,7 +220,10 @@ def verdicts(ck, rows, recs, out, count=True):
                 rec["gburst"] if u["b"] == 0 else rec["burst"][u["b"] - 1])
             keyed = (not u["lenient"]) and u["b"] != 0
             nkeyed += keyed
-            ck.violation({"row": row, "recording": rec, "verdict": v}, ("[strict only: within the hold allowance] " if keyed else "") + what,
+            keep = rec
+            if keyed:   # the tenant's own calls are all that the verdict depends on
+                keep = dict(rec, adm=[e for e in rec["adm"] if e[0] == u["b"]], ref=[])
+            ck.violation({"row": row, "recording": keep, "verdict": v}, ("[strict only: within the hold allowance] " if keyed else "") + what,
                          finding_key=FINDING if keyed else None)
         if v["low"]:
             ok = False
@@ -223,9 +242,10 @@ def selftest(recs, rows, rng):
     cases = []
     sat = [r for r, w in zip(recs, rows) if w["pattern"] == "burst" and r["grate"] > 0 and len(r["adm"]) > r["gburst"] + 20 and not w.get("server")]
     calm = [r for r, w in zip(recs, rows) if w["pattern"] == "steady" and w.get("pace_pct", 100) < 100]
-    if not sat or not calm:
-        raise ToolError("self-test: grid has no saturated / no below-rate row")
-    for i, (src, how) in enumerate([(sat[0], "duplicate"), (sat[0], "compress"), (calm[0], "refuse")]):
+    paced = [r for r, w in zip(recs, rows) if w["pattern"] == "drainpace"]
+    if not sat or not calm or not paced:
+        raise ToolError("self-test: grid has no saturated / no below-rate / no drain-then-pace row")
+    for i, (src, how) in enumerate([(sat[0], "duplicate"), (sat[0], "compress"), (calm[0], "refuse"), (paced[0], "starve")]):
         c = corrupt(src, how, rng)
         c["run"] = 100000 + i
         cases.append((c, how))
@@ -235,7 +255,7 @@ def selftest(recs, rows, rng):
 def check_selftest(cases, out):
     for c, how in cases:
         v = out[c["run"]]
-        hit = bool(v["low"]) if how == "refuse" else any(u["lenient"] for u in v["up"])
+        hit = bool(v["low"]) if how in ("refuse", "starve") else any(u["lenient"] for u in v["up"])
         if not hit:
             raise ToolError("oracle self-test failed: RateEnvelope accepted a recording corrupted by '%s'" % how)
 
@@ -255,7 +275,7 @@ def run(tier):
     directed = [(w, out[x["run"]]) for w, x in zip(rows, recs) if w.get("directed")]
     summ["directed_rows"] = len(directed)
     summ["directed_rows_reproducing"] = sum(1 for w, v in directed if any(u["strict"] for u in v["up"]))
-    summ["directed_excess_millitokens"] = [max(u["ex"] for u in v["up"] if u["b"] == 1) for w, v in directed]
+    summ["directed_excess_millitokens"] = {"%s#%d" % (w["pattern"], w["run"]): max(u["ex"] for u in v["up"] if u["b"] == 1) for w, v in directed}
     for w, x in list(zip(rows, recs))[:3]:
         ck.sample({"row": w, "calls": x["calls"], "refused": x["refused"], "admitted": len(x["adm"]), "verdict": out[x["run"]]["up"]})
     ck.assumptions += [
